@@ -23,11 +23,16 @@ ASSUMPTIONS = [
     'for tied times the order of the pointwise values within the tie group is not specified (compared as multiset)']
 REQUIRED = ['tmode:identical', 'tmode:disjoint', 'tmode:nested', 'tmode:overlap', 'tmode:free', 'tmode:single',
             'tied', 'oos', 'decreasing', 'len1', 'em:gauss', 'em:mult', 'em:cm', 'em:lognorm', 'reduced_em',
-            'unmeasured_output_first', 'negative_outputs:cm', 'long_series', 'nothing_measured']
+            'unmeasured_output_first', 'negative_outputs:cm', 'long_series', 'nothing_measured', 'sbml_model:3_states']
 
 
 @st.composite
 def _spec(draw):
+    if gen.chance(draw, 0.08):
+        # "any mechanistic model": a generated SBML / PKPD model (closed-form solution) instead of the analytic one
+        from vf.props import c03
+        sb = draw(c03._spec().filter(lambda q: q['kind'] == 'sbml' and q['prior'] is None and not q['fixed']))
+        return dict(sbml=sb)
     ll = llbuild.draw_ll(draw, allow_empty=True)
     long_ = None
     if gen.chance(draw, 0.06):
@@ -78,6 +83,8 @@ def strategy(tier):
 
 
 def classify(spec):
+    if spec.get('sbml'):
+        return ['sbml_model'] + (['sbml_model:3_states'] if len(spec['sbml']['ms']['comps']) + len(spec['sbml']['ms']['gstates']) >= 3 else [])
     ll = spec['ll']
     labs = ['tmode:' + ll['tmode']]
     if ll['tied']:
@@ -108,6 +115,8 @@ def classify(spec):
 
 
 def nontrivial(spec):
+    if spec.get('sbml'):
+        return spec['sbml']['ll']['n_out'] >= 2
     ll = spec['ll']
     if spec['decreasing'] or spec['oos'] is not None:
         return False
@@ -116,6 +125,9 @@ def nontrivial(spec):
 
 
 def structure(spec):
+    if spec.get('sbml'):
+        from vf import sbmlgen
+        return ['sbml', sbmlgen.structure(spec['sbml']['ms']), spec['sbml']['outputs']]
     return llbuild.ll_structure(spec['ll']) + [spec['oos'] is not None, spec['decreasing']]
 
 
@@ -134,8 +146,55 @@ def _canon(pw, times):
     return np.array(out)
 
 
+def _check_sbml(case, s):
+    """LogLikelihood over a generated SBML / PKPD model: total and pointwise values vs the closed-form solution."""
+    import chi
+    from vf import sbmlgen, simshim, ref
+    simshim.install()
+    L = None
+    with case.clause('construct'):
+        ms, admin = s['ms'], s['admin']
+        M = sbmlgen.build(ms, chi.PKPDModel)
+        if admin is not None:
+            comp = ms['comps'][admin['comp']]
+            M.set_administration(comp['id'], amount_var='%s_amount' % comp['sid'], direct=admin['direct'])
+        M.set_outputs(list(s['outputs']))
+        if s['reg'] is not None:
+            r = s['reg']
+            M.set_dosing_regimen(dose=r['dose'], start=r['start'], duration=r['duration'], period=r['period'], num=r['num'])
+        ll = s['ll']
+        L = chi.LogLikelihood(M, llbuild.build_error_models(ll), [np.array(o) for o in ll['obs']],
+                              [np.array(t) for t in ll['times']])
+    if L is None or case.fails:
+        return
+    z = np.array(s['params'], dtype=float)
+    tmax = max([t for ts in ll['times'] for t in ts] + [1.0])
+    ev = []
+    if s['reg'] is not None:
+        r = s['reg']
+        ev = sbmlgen.regimen_events(r['dose'], r['start'], r['duration'], r['period'], r['num'], tmax + 1.0)
+    sigs = llbuild.split_sigmas(ll, z)
+    want = 0.0
+    for o, e in enumerate(ll['ems']):
+        t = np.array(ll['times'][o], dtype=float)
+        ybar = np.real(sbmlgen.ref_simulate(ms, z[:ll['n_par']], t, [s['outputs'][o]], admin, ev)[0]) if len(t) else np.zeros(0)
+        want += float(np.real(ref.em_loglik(e['kind'], sigs[o], ybar, np.array(ll['obs'][o], dtype=float))))
+    with case.clause('counts'):
+        case.equal(L.n_parameters(), len(z), 'n_parameters')
+        case.equal(len(L.get_parameter_names()), len(z), 'len(names)')
+    with case.clause('value'):
+        case.close(L(z.copy()), want, rtol=1e-6, atol=1e-8, what='log-likelihood over an SBML model vs closed form')
+    with case.clause('pointwise'):
+        pw = np.asarray(L.compute_pointwise_ll(z.copy()), dtype=float)
+        case.equal(len(pw), sum(len(t) for t in ll['times']), 'len(pointwise)', kind='shape')
+        case.close(float(np.sum(pw)), want, rtol=1e-6, atol=1e-8, what='sum(pointwise) over an SBML model vs closed form')
+
+
 def check(case):
     s = case.spec
+    if s.get('sbml'):
+        _check_sbml(case, s['sbml'])
+        return
     ll = s['ll']
     params = np.array(s['params'], dtype=float)
 
